@@ -6,7 +6,7 @@
    (evidence: tested, not proved). *)
 From Coq Require Import List NArith ZArith Bool String Permutation.
 From Verif Require Import Model.Analyzer Gen.GenStages Proofs.AnalyzerProofs Base.Text Model.Scope Proofs.ScopeProofs Gen.GenRules Model.Rules Proofs.RulesProofs.
-From Verif Require Model.ExprKind Proofs.ExprKindProofs Model.DataDecl Proofs.DataDeclProofs.
+From Verif Require Model.ExprKind Proofs.ExprKindProofs Model.DataDecl Proofs.DataDeclProofs Proofs.DataDeclComplete.
 Import ListNotations.
 
 (* P0003 / P0005: the scan reports nothing exactly when the names are pairwise distinct, and the verdict
@@ -167,11 +167,22 @@ Proof. exact ExprKindProofs.late_in_enum_assignment. Qed.
 
 (* Aliases of data types (A : B; resolved by xform_resolve_late_bound_data_decl): when the transformation answers, every
    alias has been given the kind of a declared type that its chain of bases reaches -- there is a path of alias
-   declarations of the library from a declaration of that kind to the alias.  Partial: the converse (every alias whose
-   chain reaches a declared type is resolved, for a library sorted bases-first with unique names) is stated in
-   DataDeclProofs.resolves_complete_statement and is supported by the correspondence only. *)
+   declarations of the library from a declaration of that kind to the alias.  This half needs no hypothesis on the
+   library; the converse, for libraries with unique names sorted bases-first, is C02_alias_resolution_exact below. *)
 Theorem C02_alias_resolution_sound_partial : forall fs ks, DataDecl.xform_data_decl fs = inl ks ->
   exists s, DataDecl.dwalk DataDecl.dinit0 fs = inl s /\
     Forall2 (fun n k => exists r p, In (DataDecl.TyDecl r (Some k) p) fs /\ DataDeclProofs.apath fs r n)
             (flat_map (fun f => match f with DataDecl.TyAlias n _ => [n] | _ => [] end) fs) ks.
 Proof. exact DataDeclProofs.xform_data_decl_sound. Qed.
+
+(* ... and on a library whose type names are unique and whose bases are declared before their aliases (what the declaration
+   sort establishes) the resolution is exact: no error is raised, and an alias is given kind k exactly when a path of alias
+   declarations connects it to a declaration of kind k. *)
+Theorem C02_alias_resolution_exact : forall fs s n k, DataDeclComplete.wf fs -> DataDecl.dwalk DataDecl.dinit0 fs = inl s ->
+  (DataDecl.alias_kind (DataDecl.resolved s) n = Some k <->
+   exists r p, In (DataDecl.TyDecl r (Some k) p) fs /\ DataDeclProofs.apath fs r n).
+Proof. exact DataDeclComplete.alias_kind_exact. Qed.
+
+Theorem C02_alias_walk_accepts_well_formed : forall fs, DataDeclComplete.wf fs ->
+  exists s, DataDecl.dwalk DataDecl.dinit0 fs = inl s /\ DataDeclComplete.inv fs s.
+Proof. exact DataDeclComplete.walk_ok. Qed.
